@@ -143,6 +143,16 @@ def run(ctx):
             if not np.array_equal(b2, img):
                 inwin = img.max() <= 1.5 and img.min() >= -0.5 and (img.max() > 1 or img.min() < 0)
                 viol('C18:rgb:clip-window' if inwin else 'C18:rgb:clip', f'default quat_to_rgb(rgb_to_quat(x)) != x for a {kind} image', {'rgb': img.tolist()})
+        # 8-bit images in which one colour channel is empty, or holds only 0 / 1 (inside the heuristic window on its own): the image as a whole is
+        # outside the window, so the default conversion must return it unchanged
+        for ch in range(3):
+            for fill, fname in ((0.0, 'empty'), (None, 'zero-or-one')):
+                img = rgb + 2.0
+                img[..., ch] = fill if fill is not None else np.array([[float((i + j) % 2) for j in range(W)] for i in range(H)])
+                if img.max() <= 1.5: continue
+                for rpv in (0.0, 1.0):
+                    b3 = qslst.quat_to_rgb(qslst.rgb_to_quat(img, real_part=rpv))
+                    if not np.array_equal(b3, img): viol('C18:rgb:clip:channel', f'default quat_to_rgb(rgb_to_quat(x)) != x for an 8-bit image whose {"RGB"[ch]} channel is {fname} (maximal deviation {float(np.max(np.abs(b3 - img))):.3g})', {'rgb': img.tolist(), 'real_part': rpv})
         ctx.count(('rgb', rgb.tobytes(), rp), True)
         rterms.append(f'({H}%nat, {W}%nat, {l3(rgb.astype(int).tolist())}, {cm.zlit(rp)}, {l3(q.astype(int).tolist())}, {l3(back.astype(int).tolist())})')
     # metrics: zero-distance consistency
